@@ -1115,7 +1115,18 @@ func (r *Run) opCopy(op *Op) {
 	if op.SrcB == op.B && op.SrcKey == op.Key {
 		r.probe("self-copy")
 	}
+	// "a copy leaves the destination equal to the source": the bytes, and every
+	// header stored with the source unless the copy request itself names it
 	ent := &model.Entity{Body: src.Body, MD5: src.MD5, Tag: "copy of " + src.Tag}
+	if len(src.Meta) > 0 || len(op.Meta) > 0 {
+		ent.Meta = map[string]string{}
+		for k, v := range src.Meta {
+			ent.Meta[k] = v
+		}
+		for k, v := range op.Meta {
+			ent.Meta[k] = v
+		}
+	}
 	v := r.M.Put(db, op.Key, ent)
 	if db.Versioning == "Enabled" {
 		// gofakes3 does not report the new version id on copy; leave it unknown
